@@ -60,6 +60,22 @@ impl<'s> Semantics<'s> {
             }))
     }
 
+    /// True if one of this instruction's operands is an xmm register.
+    pub fn has_xmm_register_operand(&self) -> Result<bool, Error> {
+        let detail = self.details()?;
+        Ok(detail
+            .operands
+            .iter()
+            .take(detail.op_count as usize)
+            .any(|operand| match operand.type_ {
+                x86_op_type::X86_OP_REG => {
+                    let reg = operand.reg() as u32;
+                    reg >= x86_reg::X86_REG_XMM0 as u32 && reg <= x86_reg::X86_REG_XMM31 as u32
+                }
+                _ => false,
+            }))
+    }
+
     /// Generates a temporary scalar unique to this instruction.
     pub fn temp(&self, subindex: usize, bits: usize) -> Scalar {
         Scalar::new(
@@ -2338,6 +2354,47 @@ impl<'s> Semantics<'s> {
             }
 
             self.operand_store(block, &detail.operands[0], src)?;
+
+            block.index()
+        };
+
+        control_flow_graph.set_entry(block_index)?;
+        control_flow_graph.set_exit(block_index)?;
+
+        Ok(())
+    }
+
+    /// The SSE2 scalar double-precision move, `movsd xmm, xmm/m64` and
+    /// `movsd m64, xmm`.
+    pub fn movsd_sse(&self, control_flow_graph: &mut ControlFlowGraph) -> Result<(), Error> {
+        let detail = self.details()?;
+
+        let block_index = {
+            let block = control_flow_graph.new_block()?;
+
+            let mut src = self.operand_load(block, &detail.operands[1])?;
+            let register_source = src.bits() > 64;
+            if register_source {
+                src = Expr::trun(64, src)?;
+            }
+
+            if let x86_op_type::X86_OP_REG = detail.operands[0].type_ {
+                let low = Expr::zext(128, src)?;
+                if register_source {
+                    // xmm to xmm: the high quadword of the destination is kept
+                    let dst = self.operand_load(block, &detail.operands[0])?;
+                    let high = Expr::shl(
+                        Expr::shr(dst, expr_const(64, 128))?,
+                        expr_const(64, 128),
+                    )?;
+                    self.operand_store(block, &detail.operands[0], Expr::or(high, low)?)?;
+                } else {
+                    // memory to xmm: the high quadword is cleared
+                    self.operand_store(block, &detail.operands[0], low)?;
+                }
+            } else {
+                self.operand_store(block, &detail.operands[0], src)?;
+            }
 
             block.index()
         };
